@@ -184,6 +184,39 @@ CLAIMED.update({
          'DESIGN.md section 5 C03, Appendix E'),
 })
 
+ADD_TRUST = ('Trusted: Coq kernel + vm_compute; translator of wn/schema.sql (tables, columns, foreign keys and ON DELETE actions, '
+             'unique indexes, via SQLite introspection) into Gen/Schema.v; SQLite semantics as modelled in Model/Rel.v (rowid '
+             'allocation, INSERT OR IGNORE, upserts, cascades driven by the generated schema), validated on every run by '
+             'comparing the complete table dump after every operation of generated histories with the model\'s tables, row for '
+             'row; JSON metadata decoded by the harness; correspondence harness and history oracle (Python).')
+CLAIMED.update({
+ 'C05': ('Coq proof over a Gallina model of wn._add (add_lexical_resource, remove, add of an ILI file) on a relational layer whose '
+         'schema is regenerated from wn/schema.sql; model tied to the code by row-for-row comparison of all tables after every '
+         'operation of generated add/remove/ILI histories; a history oracle on the real code compares the final database with a '
+         'fresh database holding just the installed lexicons',
+         'Theorems (closed under the global context): deleting any row under the schema\'s cascade rules never leaves a dangling '
+         'reference; wn.remove deletes each selected lexicon with exactly its transitive extensions, leaves no row referring to a '
+         'removed lexicon, leaves every row outside the cascade closure unchanged (up to the SET NULL columns = dependency links of '
+         'other lexicons) and raises wn.Error when nothing matches; add keeps every existing row of every table in place (only '
+         'pending dependency links may be resolved), keeps references valid, is a no-op for installed lexicons and for extensions '
+         'whose base is missing, and what is skipped depends only on (id, version, extends). Partial: "equals what adding just the '
+         'installed lexicons to an empty database gives" is the composition of these facts with the content theorems of C01 and is '
+         'decided as a whole by the history oracle; for specifier lists matching several lexicons exactness is proved per '
+         'lexicon. Known finding F3 (tags/pronunciations of extensions survive removal: no owner column).',
+         ADD_TRUST, 'DESIGN.md section 5 C05, Appendix E'),
+ 'C19': ('Coq proof over the Gallina model of wn._add._add_ili (status inventory, upsert of ILI rows) written from wn/_add.py; '
+         'tied to the code by row-for-row comparison of the tables after loading generated index files (several files, '
+         'permuted orders, short rows, repeated ids, lexicons before and after); oracle on the real code',
+         'Theorems (closed under the global context): loading an index touches no table but ilis and ili_statuses; a listed ILI '
+         'ends with the status and definition of its last line (NULL when the field is missing), keeping rowid and metadata; '
+         'unlisted ILIs are unchanged and new rows appear only for listed ids that were absent; loading the same index again '
+         'is the identity on the database; statuses only grow by those of the file. Holds for ilis tables with distinct ids '
+         '(ilis_ok, preserved by add_ili and shown on a model-built database). File recognition (is_ili, header variants) is '
+         'proved with C07\'s project model; "synsets keep pointing to the same ILI" follows from the first theorem (the synsets '
+         'table is untouched and ILI rowids are kept).',
+         ADD_TRUST, 'DESIGN.md section 5 C19, Appendix E'),
+})
+
 NOT_YET = 'not covered yet in this round: model, theorems and correspondence are planned (DESIGN.md sections 5 and 9) but no sound check is registered, so nothing is claimed'
 
 def main():
